@@ -256,10 +256,9 @@ theorem C10_in_units_incompatible_integral (thr : Rat) (ht : 0 ≤ thr) (ht1 : t
     inUnits thr ⟨.exact x, dq⟩ ⟨.exact m, du⟩ = .error .unitsError :=
   C10_in_units_incompatible thr ht x m dq du hm (PGA.Qty.differs_of_integral ht1 hq hu hd)
 
-/-- **T4** `in_units(with_units(x, u), u) = x` for every non-zero number `x` and every unit `u` of non-zero
-magnitude whose exponents `_build` leaves alone.  (`x = 0`: `with_units` returns the bare number 0, which has no
-`in_units` — F12, repaired under C12; hence `_partial`.) -/
-theorem C10_in_with_units_partial (thr : Rat) (ht : 0 ≤ thr) (x m : Rat) (d : Dim) (hx : x ≠ 0) (hm : m ≠ 0)
+/-- **T4** `in_units(with_units(x, u), u) = x` for EVERY number `x` — zero included, since the repair of F12 — and every
+unit `u` of non-zero magnitude whose exponents `_build` leaves alone. -/
+theorem C10_in_with_units (thr : Rat) (ht : 0 ≤ thr) (x m : Rat) (d : Dim) (hm : m ≠ 0)
     (hs : d.All (Stable thr)) :
     inUnits thr (withUnits thr x ⟨.exact m, d⟩) ⟨.exact m, d⟩ = .ok (.exact x) := by
   have hd : Dim.mul thr Dim.zero d = d := by
@@ -267,26 +266,13 @@ theorem C10_in_with_units_partial (thr : Rat) (ht : 0 ≤ thr) (x m : Rat) (d : 
     rw [Dim.mul_of_stable ht (by rw [h0]; exact hs), h0]
   have hz : (Dim.zero).isZero = true := by decide
   have : x * m * m⁻¹ = x := by field_simp
-  simp [withUnits, hx, Val.mul, Val.plain, Mag.mul, hd, inUnits, Val.div, Mag.div, Mag.isZero, hm, Mag.inv, bind,
+  simp [withUnits, Val.mul, Val.plain, Mag.mul, hd, inUnits, Val.div, Mag.div, Mag.isZero, hm, Mag.inv, bind,
     Except.bind, pure, Except.pure, Dim.div_self ht, hz, this]
 
 example : inUnits (1 / 10 ^ 7) (withUnits (1 / 10 ^ 7) (5 / 2) ⟨.exact (1 / 100), ⟨1, 0, 0, 0, 0, 0, 0⟩⟩)
     ⟨.exact (1 / 100), ⟨1, 0, 0, 0, 0, 0, 0⟩⟩ = .ok (.exact (5 / 2)) := by decide +kernel   -- 2.5 cm in cm
-
-/-- the full statement (all `x`) … -/
-def C10_in_with_units_full : Prop :=
-  ∀ (thr x m : Rat) (d : Dim), 0 ≤ thr → m ≠ 0 → d.All (Stable thr) → d ≠ Dim.zero →
-    inUnits thr (withUnits thr x ⟨.exact m, d⟩) ⟨.exact m, d⟩ = .ok (.exact x)
-
-/-- … fails at `x = 0`: `with_units(0, 'm')` is the bare `0`, and converting it "to metres" is the units error in
-the model (an `AttributeError` in `helpers.in_units`, which calls a method of the plain number). -/
-theorem C10_in_with_units_full_false : ¬ C10_in_with_units_full := by
-  intro h
-  have := h (1 / 10 ^ 7) 0 1 ⟨1, 0, 0, 0, 0, 0, 0⟩ (by decide +kernel) (by decide +kernel)
-    ⟨Or.inl (by decide +kernel), Or.inl (by decide +kernel), Or.inl (by decide +kernel), Or.inl (by decide +kernel),
-     Or.inl (by decide +kernel), Or.inl (by decide +kernel), Or.inl (by decide +kernel)⟩ (by decide +kernel)
-  revert this
-  decide +kernel
+example : inUnits (1 / 10 ^ 7) (withUnits (1 / 10 ^ 7) 0 ⟨.exact (1 / 100), ⟨1, 0, 0, 0, 0, 0, 0⟩⟩)
+    ⟨.exact (1 / 100), ⟨1, 0, 0, 0, 0, 0, 0⟩⟩ = .ok (.exact 0) := by decide +kernel   -- 0 cm in cm
 
 /-- **T4** `from_SI_to(to_SI_from(x, u), u) = x` for every unit of non-zero magnitude … -/
 theorem C10_from_to_SI (x m : Rat) (d : Dim) (hd : d.isZero = false) (hm : m ≠ 0) :
